@@ -69,14 +69,18 @@ ASSUMPTIONS = [
     "change made by the *caller* is therefore not asserted against (only counted as metadata_alias_*)",
     "an operation that raises is 'rejected'; its inputs must still be unchanged",
 ]
-BUDGET = {"quick": 50, "thorough": 400}
+BUDGET = {"quick": 50, "thorough": 380}
 NCASES = {"quick": 4800, "thorough": 48000}
 EVAL_COUNTER = "monitored_calls"
 FLOORS = {
-    "quick": {"monitored_calls": 4000, "calls_returned": 2500, "input_objects_compared": 6000, "histories": 400,
-              "cfd_returned": 100, "metadata_shared_forms": 150, "eq_true_distinct_objects": 40, "history_rechecks": 3000},
-    "thorough": {"monitored_calls": 40000, "calls_returned": 25000, "input_objects_compared": 60000, "histories": 4000,
-                 "cfd_returned": 1000, "metadata_shared_forms": 1500, "eq_true_distinct_objects": 400, "history_rechecks": 30000},
+    "quick": {"monitored_calls": 4000, "calls_returned": 2500, "input_objects_compared": 6000, "histories": 600,
+              "cfd_returned": 150, "metadata_shared_forms": 150, "forms_with_ndarray_metadata": 100,
+              "eq_true_distinct_objects": 100, "eq_false_distinct_objects": 100, "near_twins_built": 20,
+              "history_rechecks": 6000, "caller_metadata_dicts_checked": 1500},
+    "thorough": {"monitored_calls": 40000, "calls_returned": 25000, "input_objects_compared": 60000, "histories": 6000,
+                 "cfd_returned": 1500, "metadata_shared_forms": 1500, "forms_with_ndarray_metadata": 1000,
+                 "eq_true_distinct_objects": 1000, "eq_false_distinct_objects": 1000, "near_twins_built": 200,
+                 "history_rechecks": 60000, "caller_metadata_dicts_checked": 15000},
 }
 COVER_FLOORS = {
     "quick": {"ops": ["compute_form_data", "attach_estimated_degrees", "apply_integral_scaling", "expand_derivatives",
@@ -383,10 +387,10 @@ def op_derivative(S):
     if rng.random() < 0.1 and len(cs) >= 2:
         # tuple of coefficients -> argument in a mixed space
         return ("derivative", ufl.derivative, (cur, tuple(rng.sample(cs, 2))), {}, "tuple of coefficients")
-    if r < 0.35:
+    if r < 0.3:
         n = len(cur.arguments()) if isinstance(cur, Form) else 0
         args.append(ufl.Argument(f.ufl_function_space(), n))
-    elif r < 0.5 and len(cs) >= 2:
+    elif r < 0.65 and len(cs) >= 2:
         g = rng.choice([c for c in cs if c is not f])
         try:
             dg = S.G.expr(tuple(g.ufl_shape) + tuple(f.ufl_shape), 1, "free") if len(g.ufl_shape) + len(f.ufl_shape) <= 2 else None
@@ -571,9 +575,11 @@ def op_measure(S):
     """Measure reconfiguration with a metadata dict the caller keeps."""
     cur = S.cur
     rng = S.rng
-    md = rng.choice(metadata_pool(rng)[1:])
-    m = S.U.measure()
-    kw = {"metadata": md}
+    pool = getattr(S, "mds", None) or metadata_pool(rng)
+    md = rng.choice(pool[1:])
+    # the receiver is a configured measure whose metadata dict may be the one the form's integrals hold
+    m = S.U.measure(rng.choice([None, 1]), rng.choice(pool) or None)
+    kw = {"metadata": md} if rng.random() < 0.7 else {}
     r = rng.random()
     if r < 0.4:
         kw["degree"] = rng.choice([1, 3])
@@ -582,7 +588,7 @@ def op_measure(S):
     elif r < 0.7:
         kw["degree"] = 2
         kw["scheme"] = "default"
-    if rng.random() < 0.5:
+    if rng.random() < 0.5 or not kw:
         kw["subdomain_id"] = rng.choice([1, (1, 2)])
 
     def f(measure, integrand, **k):
@@ -866,6 +872,7 @@ def history_form(ctx, i, rng):
     if info["has_ndarray"]:
         ctx.count("forms_with_ndarray_metadata")
     S = State(rng, U, G, F, arity, cplx)
+    S.mds = mds
     # a structurally equal twin built separately (for ==) and an unrelated partner
     r = rng.random()
     if r < 0.5:
@@ -913,7 +920,31 @@ def history_form(ctx, i, rng):
         if any(itg.metadata() is m for m in mds if m):
             ctx.count("metadata_alias_integral_holds_callers_dict")
             break
+    if i % 10 == 3 and F.integrals():
+        alias_probe(ctx, U, F.integrals()[0].integrand())
     finish_history(ctx, start, ops_ok, new, F, mon, "form", (cell, gdim, itype, arity))
+
+
+def alias_probe(ctx, U, e):
+    """Recorded, not asserted: Measure/Integral keep the caller's dict by reference ('assumed immutable in
+    practice', Integral.__hash__), so a later change by the caller shows in the form; the cached signature stays."""
+    d = {"quadrature_degree": 2}
+    try:
+        F2 = e * U.measure(None, d)
+        sig = F2.signature()
+    except Exception:
+        return
+    d["quadrature_degree"] = 9
+    ctx.count("alias_probe_forms")
+    if F2.integrals()[0].metadata().get("quadrature_degree") == 9:
+        ctx.count("alias_probe_integral_metadata_follows_callers_later_change")
+    if F2.signature() == sig:
+        ctx.count("alias_probe_cached_signature_unchanged")
+    try:
+        if Form(list(F2.integrals())).signature() != sig:
+            ctx.count("alias_probe_recomputed_signature_follows_callers_later_change")
+    except Exception:
+        pass
 
 
 def finish_history(ctx, start, ops_ok, new, obj, mon, kind, tag):
